@@ -49,7 +49,7 @@ FAULT_KINDS = {
     "C04": ["rng_min", "rng_max", "cost_beyond_hard_limit", "legacy_below_min", "legacy_above_max", "policy_update"],
     "C08": ["subst", "delete", "dup", "insert", "truncate", "empty", "other_record", "other_scheme", "swap_fields", "nul", "nonascii",
             "garbage", "numeric_alias", "as_bytes"],
-    "C10": ["using_raises", "invalid_item", "policy_file_missing", "policy_file_unreadable", "policy_file_read_error",
+    "C10": ["restart_via_object", "using_raises", "invalid_item", "policy_file_missing", "policy_file_unreadable", "policy_file_read_error",
             "policy_file_truncated", "policy_file_wrong_section", "policy_file_not_utf8", "restart_via_dict", "restart_via_ini",
             "restart_via_file"],
     "C18": ["disable_twice", "bare_marker", "empty_record", "none_record", "policy_update", "restart"],
@@ -301,6 +301,8 @@ def _delta(rng, cfg, truncate=False):
         s = rng.choice(costed)
         a, dflt, b = _triple(rng, s, beyond=False)
         return {f"{rng.choice(['', 'admin__', 'staff__'])}{s}__rounds": dflt}
+    if "fshp" in schemes and rng.random() < 0.3:
+        d[f"{rng.choice(['', '', 'admin__'])}fshp__variant"] = rng.choice([0, 2, 3, "sha512", "0"])  # an algorithm-variant option
     if r < 0.4 and costed:
         s = rng.choice(costed)
         a, dflt, b = _triple(rng, s, beyond=False)
@@ -338,6 +340,15 @@ def _gen_policy_program(rng, tier):
                 if len(parts) == 2 and parts[0] == s and parts[1] in ("min_rounds", "max_rounds", "default_rounds", "rounds"):
                     obj[parts[1]] = cfg.pop(k)
             cfg["scheme_objects"] = {s: obj}
+    costed_here = [s for s in cfg["schemes"] if s in COSTED]
+    if costed_here and rng.random() < 0.15:
+        # a category-wide option through the 'all' pseudo-scheme: one limit for every scheme of that category
+        s = rng.choice(costed_here)
+        a, d, b = _triple(rng, s, beyond=False)
+        cat = rng.choice(CATS)
+        which = "max_rounds"  # (a category-wide MINIMUM would push log-cost schemes of the same context to unaffordable costs)
+        cfg[f"{cat}__all__{which}"] = b
+        cfg["_may_be_refused"] = True
     if "bcrypt_sha256" in cfg["schemes"] and rng.random() < 0.5:
         # the wrapper's format version is a setting too: a context configured for the older one must not flag its own hashes
         cfg[rng.choice(["bcrypt_sha256__version", "bcrypt_sha256__version", "admin__bcrypt_sha256__version"])] = rng.choice([1, 1, 2])
@@ -421,7 +432,7 @@ def _gen_config_program(rng, tier):
         k = rng.choices(["export_import", "empty_update", "valid_update", "failed_using", "failed_item", "failed_file", "copy"],
                         [4, 1, 3, 3 if faulty else 0, 4, 2, 1])[0]
         if k == "export_import":
-            ops.append({"op": k, "form": rng.choice(["dict", "dict_resolved", "string", "file", "from_string", "kwds"])})
+            ops.append({"op": k, "form": rng.choice(["dict", "dict_resolved", "string", "file", "from_string", "kwds", "load_ctx", "load_lazy", "update_ctx"])})
         elif k in ("empty_update", "copy"):
             ops.append({"op": k, "how": rng.choice(["update()", "update({})", "load({},update=True)", "copy()"])})
         elif k == "valid_update":
@@ -536,8 +547,15 @@ class _PolicyRun:
         self.ctx = ctx
         self.policy = dict(cfg["policy"])
         self.facts = facts_for(self.policy["schemes"])
+        self.skip = False
+        self.policy.pop("_may_be_refused", None)
         r = _call(build_context, self.policy)
         if r[0] == "exc":
+            if cfg["policy"].get("_may_be_refused") and isinstance(r[2], (ValueError, KeyError)):
+                # a category-wide cost limit ('<cat>__all__max_rounds') can contradict one scheme's own minimum: a legitimate refusal
+                ctx.probe("generated_config_refused")
+                self.skip = True
+                return
             # the generator only builds well-formed configurations; a refusal here is a generator bug, not a finding
             raise RuntimeError(f"generated configuration refused: {r[1]}: {r[2]} -- {self.policy}")
         self.cc = r[1]
@@ -561,6 +579,8 @@ class _PolicyRun:
 
     def run(self, ops):
         ctx = self.ctx
+        if self.skip:
+            return
         for op in ops:
             ctx.op()
             k = op["op"]
@@ -615,7 +635,8 @@ class _PolicyRun:
                           lambda: f"{where}: {d} category {cat!r}: new hash {h!r} has cost {c}, policy says {want} (window [{lo}, {hi}])",
                           scheme=d)
         r = _call(self.cc.needs_update, h, category=cat)
-        ctx.check(r == ("ok", False), "C04", "fresh-hash-needs-update",
+        # (an EMPTY window -- minimum above maximum once every layer is merged -- cannot be satisfied by any hash)
+        ctx.check(r == ("ok", False) or (f.has_rounds and m.window_empty(d, cat)), "C04", "fresh-hash-needs-update",
                   lambda: f"{where}: hash {h!r} just made for category {cat!r} -> needs_update {r[:2]}", scheme=d)
         r = _call(self.cc.verify, pw, h, category=cat)
         ctx.check(r == ("ok", True), "C04", "fresh-hash-does-not-verify", f"{where}: {h!r} / {pw!r} -> {r[:2]}", scheme=d)
@@ -655,7 +676,9 @@ class _PolicyRun:
                     "inside": ((lo or cl) + (hi or ch)) // 2}.get(w)
             if cand is None:
                 cand = cl + int(op["r"] * (ch - cl))
-            cand = max(f.min, min(cand, max(ch, hi or 0) + step))
+            # (budget: a category-wide limit taken from another scheme's scale may put this scheme's window far above its cheap range)
+            afford = hi if (hi is not None and hi <= 2 * ch + 8) else 0
+            cand = max(f.min, min(cand, max(ch, afford) + step, f.max))
             if s == "bsdi_crypt" and cand % 2 == 0:
                 cand += 1
             kw["rounds"] = cand
@@ -774,7 +797,9 @@ class _PolicyRun:
         second = self._login(op["user"], True, op["cat"], "fixed-point#2")
         h = self.table[op["user"]][0]
         s = self.model.attribute(h)
-        if s is not None and not self.model.window_empty(s, op["cat"]) and s == self.model.default(op["cat"]):
+        lo_, hi_ = self.model.window(s, op["cat"]) if s is not None else (None, None)
+        unsat = s == "bsdi_crypt" and lo_ is not None and lo_ == hi_ and lo_ % 2 == 0  # (no odd cost in the window: see judge_fresh)
+        if s is not None and not self.model.window_empty(s, op["cat"]) and s == self.model.default(op["cat"]) and not unsat:
             self.ctx.check(second is None, "C04", "login-does-not-reach-fixed-point",
                            lambda: f"category {op['cat']!r}: second successful login in a row still rehashed: {first!r} -> {second!r}", scheme=s)
 
